@@ -3,6 +3,7 @@ import St4sd.Lemmas.C15Assoc
 import St4sd.Lemmas.C15Sort
 import St4sd.Lemmas.C15Dsl
 import St4sd.Props.C03
+import St4sd.Lemmas.C15Stages
 /-!
 # C15 — Loading a package is deterministic
 
@@ -504,5 +505,33 @@ example : ((St4sd.Repl.resolveAll [("N".toList, "2".toList)] (fun _ => [])
          aggregate := .absent }]).toOption.map (·.map (·.repl))) =
     (some [none, some 2], some [some 2, none]) := by decide
 end ReplOrder
+
+/-! ## DOSINI packages: discovery of the stage files (`Model/C15Stages.lean`, dosini.py `_discover_stages`) -/
+section StageDiscovery
+open St4sd.C15Stages
+
+/-- The stage files `Dosini._discover_stages` selects do not depend on the order in which the file system lists
+`conf/stages.d`: for every listing `l` whose files are told apart by (stage index, flavour) — a directory holding
+`stage<N>.conf` and `stage<N>.instance.conf` files — every other order `l'` of the same listing selects the same
+file for every stage index, for the package flavour and for the instance flavour. -/
+theorem stage_discovery_listing_order_irrelevant (isInst : Bool) (l l' : List Entry) (hp : l'.Perm l)
+    (hd : ∀ a ∈ l, ∀ b ∈ l, a.idx = b.idx → a.inst = b.inst → a = b) (i : Nat) :
+    discover isInst l' i = discover isInst l i :=
+  discover_perm isInst l l' hp hd i
+
+/-- What an earlier launch left in the directory is invisible: files of the OTHER flavour, wherever the file
+system lists them, change nothing of what a load of one flavour selects. -/
+theorem stage_discovery_ignores_other_flavour (isInst : Bool) (l extra : List Entry)
+    (he : ∀ e ∈ extra, e.inst = !isInst) (i : Nat) :
+    discover isInst (l ++ extra) i = discover isInst l i ∧ discover isInst (extra ++ l) i = discover isInst l i :=
+  discover_append_other isInst l extra he i
+
+/-- the hypothesis of `stage_discovery_listing_order_irrelevant` holds for a launched one-stage package, and both
+listing orders select the package flavour -/
+example : discover false [⟨0, false, "stage0.conf"⟩, ⟨0, true, "stage0.instance.conf"⟩] 0 = some "stage0.conf" ∧
+    discover false [⟨0, true, "stage0.instance.conf"⟩, ⟨0, false, "stage0.conf"⟩] 0 = some "stage0.conf" ∧
+    discover true [⟨0, false, "stage0.conf"⟩, ⟨0, true, "stage0.instance.conf"⟩] 0 = some "stage0.instance.conf" := by
+  decide
+end StageDiscovery
 
 end St4sd.C15
